@@ -149,6 +149,46 @@ def run(ck):
                                      "descr": descr, "model": model, "impl": real})
 
     s.after_apply.append(reorder_model)
+    rm_corr = {"same_guard_form": 0, "same_spliced_form": 0, "differ": 0, "syntactic_conditions_hold": 0,
+               "outside_syntactic_conditions": 0}
+
+    def remove_model(p, q, op, descr, site, replay):
+        # correspondence of RemoveLoop.remove_guard_proc / remove_splice_proc (C01_remove_*_proc) with the real
+        # Procedure.remove_loop, which returns one of the two forms depending on whether it can prove hi > lo
+        if op != "remove_loop":
+            return
+        import ast, re
+        m = re.match(r"N(\[.*?\])$", descr)
+        if not m:
+            return
+        node = p._loopir_proc
+        for attr, idx in ast.literal_eval(m.group(1)):
+            node = getattr(node, attr)[idx]
+        name = s.sc.ref(p)
+        ex = s.sc.ex
+        job = "%s %s" % (name, ex.sym(node.iter))
+        real = ex.proc_sexp(q._loopir_proc)
+        defs = {n: sx for (n, sx) in ex.procs.values()}
+        stream = "remove_loop-model-vs-impl"
+        form = None
+        for kind in ("rmguard", "rmsplice"):
+            model = s.sc.interp.ask("(%s %s)" % (kind, job))
+            if expand(model, defs) == expand(real, defs):
+                form = kind
+                break
+        inside = form is not None and s.sc.interp.ask("(%sok %s)" % (form, job)).strip() == "ok"
+        ck.case(stream, (replay["program"], descr), sample={"loop": str(node.iter), "form": form},
+                tag=(form or "neither") + (":syntactic-conditions-hold" if inside else ":outside-syntactic-conditions"))
+        rm_corr["syntactic_conditions_hold" if inside else "outside_syntactic_conditions"] += 1
+        if form:
+            rm_corr["same_guard_form" if form == "rmguard" else "same_spliced_form"] += 1
+            ck.corr_agree(stream)
+        else:
+            rm_corr["differ"] += 1
+            ck.corr_diverge(stream, {"program": replay["program"], "source": replay["source"], "descr": descr,
+                                     "model_guard": s.sc.interp.ask("(rmguard %s)" % job), "impl": real})
+
+    s.after_apply.append(remove_model)
     findings = s.run(n_programs=ck.n(60, 600), budget_s=ck.n(110, 1300))
     # second stream: aliasing stress (windows of windows, the same cell reached through two names) under the
     # operations whose side conditions are location-set queries
@@ -169,6 +209,7 @@ def run(ck):
     ck.cov["shift_loop_model_correspondence"] = shift_corr
     ck.cov["divide_loop_model_correspondence"] = div_corr
     ck.cov["reorder_loops_model_correspondence"] = reo_corr
+    ck.cov["remove_loop_model_correspondence"] = rm_corr
     ck.cov["operation_crashes"] = s.crashes
     ck.cov["inputs_run_in_reference_semantics"] = s.sc.runs + s2.sc.runs
     ck.cov["comparisons_where_source_ran_to_completion"] = s.sc.nontrivial
